@@ -31,7 +31,7 @@ NOTES = {
     "C07e": "engine dependence of a range delete with more than 5000 elements; C07's logs never build that many. Caught by the engine differential C20 (quick tier)",
     "C07f": "first evaluation missed it everywhere; caught by C04's pending-table state machine after an HMSET whose second value is over the size limit was added (the first pair must not survive the refusal)",
     "C12f": "a reverse sub-key scan that leaves its collection; C12's frame check does not scan. Caught by C13 (the scan does not terminate / pages differ)",
-    "C12e": "first evaluation missed it: C12's codec sub-run skipped the order comparison for pairs that differ in the sign of a zero (a tolerance the unchanged code never needed: -0 and 0 are the same number and encode to the same bytes). Caught after the tolerance was removed and -0 put in the float pool; -0 is still kept out of the command-level score pools because the implementation formats it inconsistently (ZSCORE answers -0, ZRANGE WITHSCORES answers 0)",
+    "C12e": "first evaluation missed it: C12's codec sub-run skipped the order comparison for pairs that differ in the sign of a zero (a tolerance the unchanged code never needed: -0 and 0 are the same number and encode to the same bytes). Caught after the tolerance was removed and -0 put in the float pool; at command level -0 is generated by C08 since (known finding C08-negative-zero-score-sign: ZSCORE answers -0, ZRANGE WITHSCORES answers 0)",
     "C06e": "a torn tail makes ValidSnapshotEntries fail although ReadAll + Repair can read the log; process kills rarely tear a record (the page cache survives). Caught by C05 after it required that ValidSnapshotEntries does not fail on an image the rest of the restart sequence reads back",
     "C08f": "needs a list above 5000 elements, LCLEAR, and a rebuild at least as long; C08's sequences are short. Caught by C12's big-collection mode after 'clear, then build again a little longer' was added",
     "C05e": "NOT caught, and not reachable by a history production can produce: the lost hard state is only missed when the log is opened at a marker in the new segment, i.e. at an index the saved hard states have not committed yet; production opens at markers ValidSnapshotEntries returns, which are at or below the committed index, and a commit beyond the cut writes a hard state into the new segment. The generator is kept sound rather than widened",
